@@ -84,20 +84,24 @@ def evaluate(spec):
 @st.composite
 def spec_strategy(draw, tier):
     n = draw(st.integers(2, 5 if tier == "quick" else 10))
-    topology = draw(st.sampled_from(["distinct", "same-hosts", "same-client-port", "same-server", "mixed"]))
+    topology = draw(st.sampled_from(["distinct", "same-hosts", "same-client-port", "same-server", "swapped-roles", "mixed"]))
     v6 = draw(st.booleans())
     base = draw(strategies.endpoints(idx=0, v6=v6))
     conns = []
     used = set()
     for i in range(n):
         k = draw(st.sampled_from(["tls", "tls", "quic", "quic", "noise"])) if i >= 2 else draw(st.sampled_from(["tls", "quic"]))
-        topo = topology if topology != "mixed" else draw(st.sampled_from(["distinct", "same-hosts", "same-client-port", "same-server"]))
+        topo = topology if topology != "mixed" else draw(st.sampled_from(["distinct", "same-hosts", "same-client-port", "same-server", "swapped-roles"]))
         ep = draw(strategies.endpoints(idx=i, v6=(v6 if topo != "distinct" else None)))
         if topo == "same-hosts":          # same two hosts, different client ports
             ep.update(cip=base["cip"], sip=base["sip"], cmac=base["cmac"], smac=base["smac"], v6=base["v6"], cport=20000 + 97 * i + ep["cport"] % 50)
         elif topo == "same-client-port":  # same client address and port towards different servers
             ep.update(cip=base["cip"], cmac=base["cmac"], cport=base["cport"], v6=base["v6"])
             ep["sip"] = ("2001:db8:ffff::%x" % (i + 1)) if base["v6"] else "172.16.%d.%d" % (i, 1 + i)
+        elif topo == "swapped-roles" and i % 2 == 1:   # the same two hosts and the same two port numbers, roles exchanged: X:p -> Y:q and Y:p -> X:q
+            ep.update(cip=base["sip"], sip=base["cip"], cmac=base["smac"], smac=base["cmac"], v6=base["v6"], cport=base["cport"], sport=base["sport"])
+        elif topo == "swapped-roles":
+            ep.update(cip=base["cip"], sip=base["sip"], cmac=base["cmac"], smac=base["smac"], v6=base["v6"], cport=base["cport"] + (i // 2), sport=base["sport"])
         elif topo == "same-server":       # different clients, one server
             ep.update(sip=base["sip"], smac=base["smac"], v6=base["v6"])
             ep["cip"] = ("2001:db8:eeee::%x" % (i + 1)) if base["v6"] else "10.99.%d.%d" % (i, 1 + i)
@@ -145,7 +149,7 @@ def stages(tier):
 
 
 RULE = ("2-5 (thorough: 2-10) connections, TLS and QUIC mixed with unrelated traffic, endpoint topologies {all distinct, same two hosts with different "
-        "client ports, same client address+port towards different servers, one server for different clients, mixed}, IPv4/IPv6; their packet "
+        "client ports, same client address+port towards different servers, one server for different clients, the same two hosts and port numbers with exchanged roles, mixed}, IPv4/IPv6; their packet "
         "sequences are merged by a drawn order-preserving merge, times are assigned after merging, the key-log lines of all connections are "
         "shuffled together; oracle (metamorphic): every connection's packets in the combined export equal, byte for byte and time for time, the "
         "export of the capture filtered to that connection, nothing else is in the combined export, and each solo export is the ground truth.  "
